@@ -20,6 +20,7 @@ import (
 	"github.com/magisterquis/curlrevshell/internal/iobroker"
 	"github.com/magisterquis/curlrevshell/lib/opshell"
 	"github.com/magisterquis/curlrevshell/verifx/ev"
+	"github.com/magisterquis/curlrevshell/verifx/hworld"
 )
 
 func init() {
@@ -28,7 +29,7 @@ func init() {
 		for round := 0; round < 300; round++ {
 			ich := make(chan string, 64)
 			och := make(chan opshell.CLine, 1024)
-			b, err := iobroker.New(ich, och)
+			b, err := hworld.NewBroker(ich, och)
 			if nil != err {
 				return 2
 			}
